@@ -1,4 +1,328 @@
-(* placeholder, replaced below *)
-From Coq Require Import ZArith List.
-From PR Require Import Model.KDTree.
-Theorem C02_placeholder : True. Proof. exact I. Qed.
+(* C02 — nearest-neighbour resampling returns the truly nearest source value or fill.
+   Only statements here; proofs live in Proofs/C02_*.v, the model in Model/KDTree.v.
+
+   Reading guide.  Source / target locations are flat indices into the coordinate arrays; [vin] / [vout] are the
+   validity masks ([valid_in] / [valid_out]: the four range comparisons, false on NaN); [d2 t s] is the exact squared
+   geocentric chord distance between target t and source s, [r2] the squared radius of influence.  The kd-tree is an
+   ORACLE [knn]: the theorems hold for every query function meeting the contract [knn_spec_tol a b] (a/b >= 1 the
+   slack on squared distances; a = b = 1 is the exact contract [knn_spec]: "d < r => returned, d > r => not returned,
+   d = r => either").  [rows] / [mrows] are the data (one row of channel values / mask bits per source location),
+   [fill = None] is fill_value=None, [sentinel] the dtype maximum used internally for it.  A result cell is the pair
+   (channel values, channel mask bits) of one target location. *)
+From Coq Require Import ZArith Bool List Lia Reals PrimFloat.
+From PR Require Import Base.Num Base.RNum Base.F64 Model.KDTree
+     Model.C02_run Proofs.C02_lists Proofs.C02_query Proofs.C02_pipeline Proofs.C02_main Proofs.C02_fast.
+Import ListNotations.
+Open Scope nat_scope.
+
+(* ------------------------------------------------------------------------------------------------------------
+   For every target location: the output is the value AND mask state of a valid source of minimal distance, and that
+   distance is within the radius; or every valid source is at least the radius away (or the target itself is invalid)
+   and the output is the fill value / a masked element.
+   Named hypotheses: H_knn (the tree meets its contract), H_no_sentinel (with fill_value=None no valid datum equals
+   the dtype maximum -- without it the clause is refuted on the unchanged tree, see C02_mask_sentinel_refuted). *)
+Theorem C02_nn_is_nearest_or_fill_if :
+  forall (V D : Type) (veqb : V -> V -> bool) (vzero vone : V),
+    veqb vzero vzero = true -> veqb vone vzero = false ->
+  forall (r2 : Z) (d2 : nat -> nat -> Z) (tshape : list Z) (dtype : D) (multi : bool) (k : nat)
+         (rows : list (list V)) (mrows : option (list (list bool))) (vin vout : list bool)
+         (fill : option V) (sentinel : V),
+    (* well-formed data: one row of kk values (and mask bits) per source location *)
+    wf_input multi k rows mrows vin ->
+    veqb sentinel sentinel = true ->
+    (* H_no_sentinel *)
+    (fill = None -> forall s, valid_at vin s -> forall v, In v (nth s rows []) -> veqb v sentinel = false) ->
+  forall knn : list nat -> nat -> nat,
+    (* H_knn *)
+    (forall t, valid_at vout t -> knn_spec r2 (d2 t) (compact vin) (knn (compact vin) t)) ->
+  forall t, t < length vout ->
+    let kk := if multi then k else 1 in
+    let cell := nth t (o_cells (resample_nn veqb vzero vone knn tshape dtype multi k rows mrows vin vout fill sentinel))
+                    ([], []) in
+    (exists s, valid_at vout t /\ valid_at vin s /\
+        (forall s', valid_at vin s' -> (d2 t s <= d2 t s')%Z) /\ (d2 t s <= r2)%Z /\
+        fst cell = nth s rows [] /\
+        snd cell = match mrows with Some mm => nth s mm [] | None => repeat false kk end)
+    \/
+    ((~ valid_at vout t \/ forall s', valid_at vin s' -> (r2 <= d2 t s')%Z) /\
+     (forall f, fill = Some f -> fst cell = repeat f kk) /\
+     (fill = None -> snd cell = repeat true kk)).
+Proof. exact (@main_exact). Qed.
+Print Assumptions C02_nn_is_nearest_or_fill_if.
+
+(* the same for a tree that is only optimal up to the slack a/b on squared distances -- the form the
+   correspondence establishes for the real kd-tree on every run (a/b = (1 + 1e-12)^2) *)
+Theorem C02_nn_is_nearest_or_fill_tol_if :
+  forall (V D : Type) (veqb : V -> V -> bool) (vzero vone : V),
+    veqb vzero vzero = true -> veqb vone vzero = false ->
+  forall (a b r2 : Z) (d2 : nat -> nat -> Z) (tshape : list Z) (dtype : D) (multi : bool) (k : nat)
+         (rows : list (list V)) (mrows : option (list (list bool))) (vin vout : list bool)
+         (fill : option V) (sentinel : V),
+    wf_input multi k rows mrows vin ->
+    veqb sentinel sentinel = true ->
+    (fill = None -> forall s, valid_at vin s -> forall v, In v (nth s rows []) -> veqb v sentinel = false) ->
+  forall knn : list nat -> nat -> nat,
+    (forall t, valid_at vout t -> knn_spec_tol a b r2 (d2 t) (compact vin) (knn (compact vin) t)) ->
+  forall t, t < length vout ->
+    let kk := if multi then k else 1 in
+    let cell := nth t (o_cells (resample_nn veqb vzero vone knn tshape dtype multi k rows mrows vin vout fill sentinel))
+                    ([], []) in
+    (exists s, valid_at vout t /\ valid_at vin s /\
+        (forall s', valid_at vin s' -> (b * d2 t s <= a * d2 t s')%Z) /\ (b * d2 t s <= a * r2)%Z /\
+        fst cell = nth s rows [] /\
+        snd cell = match mrows with Some mm => nth s mm [] | None => repeat false kk end)
+    \/
+    ((~ valid_at vout t \/ forall s', valid_at vin s' -> (b * r2 <= a * d2 t s')%Z) /\
+     (forall f, fill = Some f -> fst cell = repeat f kk) /\
+     (fill = None -> snd cell = repeat true kk)).
+Proof. exact (@main_tol). Qed.
+Print Assumptions C02_nn_is_nearest_or_fill_tol_if.
+
+(* decisive cases: some valid source strictly inside the radius => a nearest one's value and mask state;
+   every valid source strictly outside => fill / masked *)
+Theorem C02_value_if_strictly_inside :
+  forall (V D : Type) (veqb : V -> V -> bool) (vzero vone : V),
+    veqb vzero vzero = true -> veqb vone vzero = false ->
+  forall (r2 : Z) (d2 : nat -> nat -> Z) (tshape : list Z) (dtype : D) (multi : bool) (k : nat)
+         (rows : list (list V)) (mrows : option (list (list bool))) (vin vout : list bool)
+         (fill : option V) (sentinel : V),
+    wf_input multi k rows mrows vin -> veqb sentinel sentinel = true ->
+    (fill = None -> forall s, valid_at vin s -> forall v, In v (nth s rows []) -> veqb v sentinel = false) ->
+  forall knn : list nat -> nat -> nat,
+    (forall t, valid_at vout t -> knn_spec r2 (d2 t) (compact vin) (knn (compact vin) t)) ->
+  forall t, valid_at vout t -> (exists s, valid_at vin s /\ (d2 t s < r2)%Z) ->
+    let kk := if multi then k else 1 in
+    let cell := nth t (o_cells (resample_nn veqb vzero vone knn tshape dtype multi k rows mrows vin vout fill sentinel))
+                    ([], []) in
+    exists s, valid_at vin s /\ (forall s', valid_at vin s' -> (d2 t s <= d2 t s')%Z) /\ (d2 t s < r2)%Z /\
+      fst cell = nth s rows [] /\ snd cell = match mrows with Some mm => nth s mm [] | None => repeat false kk end.
+Proof. exact (@value_if_strictly_inside). Qed.
+Print Assumptions C02_value_if_strictly_inside.
+
+Theorem C02_fill_if_all_outside :
+  forall (V D : Type) (veqb : V -> V -> bool) (vzero vone : V),
+    veqb vzero vzero = true -> veqb vone vzero = false ->
+  forall (r2 : Z) (d2 : nat -> nat -> Z) (tshape : list Z) (dtype : D) (multi : bool) (k : nat)
+         (rows : list (list V)) (mrows : option (list (list bool))) (vin vout : list bool)
+         (fill : option V) (sentinel : V),
+    wf_input multi k rows mrows vin -> veqb sentinel sentinel = true ->
+    (fill = None -> forall s, valid_at vin s -> forall v, In v (nth s rows []) -> veqb v sentinel = false) ->
+  forall knn : list nat -> nat -> nat,
+    (forall t, valid_at vout t -> knn_spec r2 (d2 t) (compact vin) (knn (compact vin) t)) ->
+  forall t, t < length vout -> (forall s, valid_at vin s -> (r2 < d2 t s)%Z) ->
+    let kk := if multi then k else 1 in
+    let cell := nth t (o_cells (resample_nn veqb vzero vone knn tshape dtype multi k rows mrows vin vout fill sentinel))
+                    ([], []) in
+    (forall f, fill = Some f -> fst cell = repeat f kk) /\ (fill = None -> snd cell = repeat true kk).
+Proof. exact (@fill_if_all_outside). Qed.
+Print Assumptions C02_fill_if_all_outside.
+
+(* ------------------------------------------------------------------------------------------------------------
+   Invalid locations never contribute.
+   (i) non-interference: the whole result is unchanged when the data / mask at invalid source locations and the
+       tree's answers to anything but (valid sources, valid targets) are replaced arbitrarily;
+   (ii) an invalid target is fill / masked;
+   (iii) over the reals "valid" is exactly -180 <= lon <= 180 and -90 <= lat <= 90 (binary64: Examples below and the
+       bit-exact correspondence, incl. NaN / inf / 1e30). *)
+Theorem C02_invalid_never_contribute :
+  forall (V D : Type) (veqb : V -> V -> bool) (vzero vone : V) (knn knn' : list nat -> nat -> nat)
+         (tshape : list Z) (dtype : D) (multi : bool) (k : nat) (rows rows' : list (list V))
+         (mrows mrows' : option (list (list bool))) (vin vout : list bool) (fill : option V) (sentinel : V),
+    agree_on vin rows rows' [] ->
+    match mrows, mrows' with
+    | Some mm, Some mm' => agree_on vin mm mm' []
+    | None, None => True
+    | _, _ => False
+    end ->
+    (forall t, In t (compact vout) -> knn (compact vin) t = knn' (compact vin) t) ->
+    resample_nn veqb vzero vone knn tshape dtype multi k rows mrows vin vout fill sentinel =
+    resample_nn veqb vzero vone knn' tshape dtype multi k rows' mrows' vin vout fill sentinel.
+Proof. exact (@invalid_never_contribute). Qed.
+Print Assumptions C02_invalid_never_contribute.
+
+Theorem C02_invalid_target_is_fill :
+  forall (V D : Type) (veqb : V -> V -> bool) (vzero vone : V),
+    veqb vzero vzero = true -> veqb vone vzero = false ->
+  forall (r2 : Z) (d2 : nat -> nat -> Z) (tshape : list Z) (dtype : D) (multi : bool) (k : nat)
+         (rows : list (list V)) (mrows : option (list (list bool))) (vin vout : list bool)
+         (fill : option V) (sentinel : V),
+    wf_input multi k rows mrows vin -> veqb sentinel sentinel = true ->
+    (fill = None -> forall s, valid_at vin s -> forall v, In v (nth s rows []) -> veqb v sentinel = false) ->
+  forall knn : list nat -> nat -> nat,
+    (forall t, valid_at vout t -> knn_spec r2 (d2 t) (compact vin) (knn (compact vin) t)) ->
+  forall t, t < length vout -> nth t vout false = false ->
+    let kk := if multi then k else 1 in
+    let cell := nth t (o_cells (resample_nn veqb vzero vone knn tshape dtype multi k rows mrows vin vout fill sentinel))
+                    ([], []) in
+    (forall f, fill = Some f -> fst cell = repeat f kk) /\ (fill = None -> snd cell = repeat true kk).
+Proof. exact (@invalid_target_fill). Qed.
+Print Assumptions C02_invalid_target_is_fill.
+
+Theorem C02_valid_iff_in_range : forall (lons lats : list R) i, length lons = length lats -> i < length lons ->
+  (nth i (valid_input_index RO lons lats) false = true <->
+     (-180 <= nth i lons 0 <= 180 /\ -90 <= nth i lats 0 <= 90)%R) /\
+  (nth i (valid_output_index RO lons lats) false = true <->
+     (-180 <= nth i lons 0 <= 180 /\ -90 <= nth i lats 0 <= 90)%R).
+Proof. intros lons lats i Hl Hi. split; [exact (valid_input_index_R lons lats i Hl Hi)|exact (valid_output_index_R lons lats i Hl Hi)]. Qed.
+Print Assumptions C02_valid_iff_in_range.
+
+(* a flat index survives the compaction exactly when it is flagged valid *)
+Theorem C02_compact_keeps_exactly_valid : forall m s, In s (compact m) <-> valid_at m s.
+Proof. exact in_compact. Qed.
+Print Assumptions C02_compact_keeps_exactly_valid.
+
+(* ------------------------------------------------------------------------------------------------------------
+   Shape and dtype: target shape (+ channel axis for (n,k) data), one cell of kk values and kk mask bits per target
+   location (so the element count is the product of the shape), input dtype.
+   Excluded input class (refuted on the unchanged tree, C02_shape_masked_single_channel_refuted):
+   masked multi-channel data with exactly one channel. *)
+Theorem C02_shape_dtype_if :
+  forall (V D : Type) (veqb : V -> V -> bool) (vzero vone : V) (knn : list nat -> nat -> nat)
+         (tshape : list Z) (dtype : D) (multi : bool) (k : nat) (rows : list (list V))
+         (mrows : option (list (list bool))) (vin vout : list bool) (fill : option V) (sentinel : V),
+    let o := resample_nn veqb vzero vone knn tshape dtype multi k rows mrows vin vout fill sentinel in
+    (multi = true -> k = 1 -> mrows = None) ->
+    o_shape o = tshape ++ (if multi then [Z.of_nat k] else []) /\ o_dtype o = dtype.
+Proof. exact (@shape_dtype). Qed.
+Print Assumptions C02_shape_dtype_if.
+
+Theorem C02_shape_size_if :
+  forall (V D : Type) (veqb : V -> V -> bool) (vzero vone : V) (knn : list nat -> nat -> nat)
+         (tshape : list Z) (dtype : D) (multi : bool) (k : nat) (rows : list (list V))
+         (mrows : option (list (list bool))) (vin vout : list bool) (fill : option V) (sentinel : V),
+    let o := resample_nn veqb vzero vone knn tshape dtype multi k rows mrows vin vout fill sentinel in
+    wf_input multi k rows mrows vin ->
+    (multi = true -> k = 1 -> mrows = None) ->
+    Z.of_nat (length vout) = prodZ tshape ->
+    length (o_cells o) = length vout /\
+    (forall c, In c (o_cells o) -> length (fst c) = kk multi k /\ length (snd c) = kk multi k) /\
+    Z.of_nat (length (o_vals o)) = prodZ (o_shape o) /\ length (o_mask o) = length (o_vals o).
+Proof. exact (@shape_size). Qed.
+Print Assumptions C02_shape_size_if.
+
+(* ------------------------------------------------------------------------------------------------------------
+   The oracle contract: the executable acceptance test used by the correspondence is equivalent to the contract
+   (soundness is what the tie needs); the brute-force reference meets the exact contract (so H_knn is satisfiable),
+   reports a neighbour exactly when one is strictly inside the radius, and returns the lowest index among ties;
+   the exact contract implies every relaxed one. *)
+Theorem C02_accept_sound : forall a b r2 d cands i,
+  accept a b r2 d cands i = true -> knn_spec_tol a b r2 d cands i.
+Proof. exact accept_sound. Qed.
+Print Assumptions C02_accept_sound.
+Theorem C02_accept_list_sound : forall a b r2 d cands i,
+  accept_list a b r2 (map d cands) i = true -> knn_spec_tol a b r2 d cands i.
+Proof. exact accept_list_sound. Qed.
+Print Assumptions C02_accept_list_sound.
+(* the form the correspondence executes (Model/C02_run.v): exact integer coordinates [srcs], [tf] of the implementation's
+   own cartesian floats, with a coarse-coordinate shortcut; it implies the contract for the exact squared distances *)
+Theorem C02_accept_fast_sound : forall a b r2 u tf srcs i,
+  accept_fast a b r2 u tf (with_coarse u srcs) i = true ->
+  knn_spec_tol a b r2 (fun s => sqd tf (nth s srcs (0, 0, 0)%Z)) (seq 0 (length srcs)) i.
+Proof. exact accept_fast_contract. Qed.
+Print Assumptions C02_accept_fast_sound.
+Theorem C02_accept_complete : forall a b r2 d cands i,
+  knn_spec_tol a b r2 d cands i -> accept a b r2 d cands i = true.
+Proof. intros a b r2 d cands i. apply accept_iff. Qed.
+Print Assumptions C02_accept_complete.
+Theorem C02_brute_force_meets_contract : forall r2 d cands, knn_spec r2 d cands (nearest r2 d cands).
+Proof. exact nearest_spec. Qed.
+Print Assumptions C02_brute_force_meets_contract.
+Theorem C02_brute_force_bound_is_strict : forall r2 d cands,
+  nearest r2 d cands < length cands <-> exists s, In s cands /\ (d s < r2)%Z.
+Proof. exact nearest_found_iff. Qed.
+Print Assumptions C02_brute_force_bound_is_strict.
+Theorem C02_brute_force_lowest_index_on_ties : forall r2 d cands, nearest r2 d cands < length cands ->
+  forall j, j < nearest r2 d cands -> (d (nth (nearest r2 d cands) cands 0%nat) < d (nth j cands 0%nat))%Z.
+Proof. exact nearest_first_min. Qed.
+Print Assumptions C02_brute_force_lowest_index_on_ties.
+Theorem C02_exact_contract_implies_relaxed : forall r2 d cands a b i,
+  (0 < b <= a)%Z -> (0 <= r2)%Z -> (forall s, In s cands -> (0 <= d s)%Z) ->
+  knn_spec r2 d cands i -> knn_spec_tol a b r2 d cands i.
+Proof. exact knn_spec_weaken. Qed.
+Print Assumptions C02_exact_contract_implies_relaxed.
+
+(* ------------------------------------------------------------------------------------------------------------
+   Refuted on the unchanged tree (known findings C02.mask_sentinel, C02.shape.masked_single_channel):
+   both witnesses are replayed on the real implementation by the check. *)
+Theorem C02_mask_sentinel_refuted :
+  exists (rows : list (list Z)) (vin vout : list bool) (knn : list nat -> nat -> nat) (d2 : nat -> nat -> Z) (r2 : Z),
+    (forall t, valid_at vout t -> knn_spec r2 (d2 t) (compact vin) (knn (compact vin) t)) /\
+    wf_input false 1 rows None vin /\
+    (* target 0: valid source 0 strictly inside the radius, nearest, unmasked, value 255 = the sentinel *)
+    (d2 0%nat 0%nat < r2)%Z /\ (forall s', valid_at vin s' -> (d2 0%nat 0%nat <= d2 0%nat s')%Z) /\
+    nth 0 (o_cells (resample_nn Z.eqb 0%Z 1%Z knn [1%Z] 3%Z false 1 rows None vin vout None 255%Z)) ([], [])
+      = (nth 0 rows [], [true]).     (* ... and the output element is masked *)
+Proof.
+  exists [[255%Z]; [7%Z]], [true; true], [true], (fun cands t => nearest 100 (fun s => Z.of_nat s + 1)%Z cands),
+         (fun _ s => (Z.of_nat s + 1)%Z), 100%Z.
+  split; [intros t _; apply nearest_spec|]. split; [|split; [reflexivity|split; [intros s' _; lia|exact (f_equal (fun l => nth 0 l ([], [])) sentinel_refuted)]]].
+  split; [reflexivity|]. split; [|exact I]. intros row [<-|[<-|[]]]; reflexivity.
+Qed.
+Print Assumptions C02_mask_sentinel_refuted.
+
+Theorem C02_shape_masked_single_channel_refuted :
+  exists (rows : list (list Z)) (mm : list (list bool)) (vin vout : list bool) (knn : list nat -> nat -> nat),
+    wf_input true 1 rows (Some mm) vin /\
+    o_shape (resample_nn Z.eqb 0%Z 1%Z knn [2%Z; 2%Z] 0%Z true 1 rows (Some mm) vin vout (Some 0%Z) 255%Z) = [2%Z; 2%Z] /\
+    o_shape (resample_nn Z.eqb 0%Z 1%Z knn [2%Z; 2%Z] 0%Z true 1 rows None vin vout (Some 0%Z) 255%Z) = [2%Z; 2%Z; 1%Z].
+Proof.
+  exists [[5%Z]; [7%Z]], [[false]; [true]], [true; true], [true; true; true; true],
+         (fun cands t => nearest 100 (fun s => Z.of_nat s + 1)%Z cands).
+  split; [|exact shape_masked_single_channel_refuted].
+  split; [reflexivity|]. split; [intros row [<-|[<-|[]]]; reflexivity|].
+  split; [reflexivity|]. intros m [<-|[<-|[]]]; reflexivity.
+Qed.
+Print Assumptions C02_shape_masked_single_channel_refuted.
+
+(* ------------------------------------------------------------------------------------------------------------
+   Non-vacuity: a concrete instance satisfying every hypothesis, with the brute force as the oracle.
+   Sources on a line at 0, 100 (INVALID), 10, 20; targets at 1, 14, 100, and one invalid; radius 5 (r2 = 25).
+   Target 2 sits exactly on the invalid source and must still be fill. *)
+Definition ex_pos_s : list Z := [0; 100; 10; 20]%Z.
+Definition ex_pos_t : list Z := [1; 14; 100; 3]%Z.
+Definition ex_d2 (t s : nat) : Z := ((nth t ex_pos_t 0 - nth s ex_pos_s 0) * (nth t ex_pos_t 0 - nth s ex_pos_s 0))%Z.
+Definition ex_vin := [true; false; true; true].
+Definition ex_vout := [true; true; true; false].
+Definition ex_rows : list (list Z) := [[11; 12]; [21; 22]; [31; 32]; [41; 42]]%Z.
+Definition ex_mrows := Some [[false; true]; [true; true]; [false; false]; [true; false]].
+Definition ex_knn : list nat -> nat -> nat := fun cands t => nearest 25 (ex_d2 t) cands.
+
+Example C02_ex_hypotheses :
+  wf_input true 2 ex_rows ex_mrows ex_vin /\
+  (forall t, valid_at ex_vout t -> knn_spec 25 (ex_d2 t) (compact ex_vin) (ex_knn (compact ex_vin) t)) /\
+  (forall s, valid_at ex_vin s -> forall v, In v (nth s ex_rows []) -> Z.eqb v 255 = false).
+Proof.
+  split; [|split].
+  - split; [reflexivity|]. split; [intros row [<-|[<-|[<-|[<-|[]]]]]; reflexivity|].
+    split; [reflexivity|]. intros m [<-|[<-|[<-|[<-|[]]]]]; reflexivity.
+  - intros t _. apply nearest_spec.
+  - intros s [Hs _] v Hv. cbn in Hs. destruct s as [|[|[|[|s]]]]; cbn in Hv; try lia; intuition (subst; reflexivity).
+Qed.
+Example C02_ex_result :
+  o_cells (resample_nn Z.eqb 0 1 ex_knn [2; 2] 7 true 2 ex_rows ex_mrows ex_vin ex_vout None 255)%Z
+  = [([11; 12], [false; true]); ([31; 32], [false; false]); ([255; 255], [true; true]); ([255; 255], [true; true])]%Z
+  /\ o_shape (resample_nn Z.eqb 0 1 ex_knn [2; 2] 7 true 2 ex_rows ex_mrows ex_vin ex_vout None 255)%Z = [2; 2; 2]%Z
+  /\ neighbour_info ex_knn ex_vin ex_vout = ([true; false; true; true], [true; true; true; false], [0; 1; 3]).
+Proof. vm_compute. repeat split. Qed.
+Example C02_ex_numeric_fill :
+  o_cells (resample_nn Z.eqb 0 1 ex_knn [4] 7 false 1 [[11]; [21]; [31]; [41]] None ex_vin ex_vout (Some (-1)) 255)%Z
+  = [([11], [false]); ([31], [false]); ([-1], [false]); ([-1], [false])]%Z.
+Proof. vm_compute. reflexivity. Qed.
+(* no valid source at all: _create_empty_info + _get_empty_sample *)
+Example C02_ex_no_valid_source :
+  o_cells (resample_nn Z.eqb 0 1 ex_knn [4] 7 false 1 [[11]; [21]] None [false; false] ex_vout (Some 9) 255)%Z
+  = repeat ([9], [false])%Z 4.
+Proof. vm_compute. reflexivity. Qed.
+(* the acceptance test at the boundary: distance exactly r is accepted either way; the slack used for float64 trees *)
+Example C02_ex_accept_boundary :
+  accept 1 1 25 (fun s => nth s [25; 30] 0)%Z [0; 1] 0 = true /\ accept 1 1 25 (fun s => nth s [25; 30] 0)%Z [0; 1] 2 = true /\
+  accept 1 1 25 (fun s => nth s [24; 30] 0)%Z [0; 1] 2 = false /\ accept 1 1 25 (fun s => nth s [24; 30] 0)%Z [0; 1] 1 = false /\
+  (0 < 10 ^ 24 <= (10 ^ 12 + 1) ^ 2)%Z.
+Proof. vm_compute. repeat split; congruence. Qed.
+(* binary64 validity: bounds inclusive, one ulp outside / NaN / inf / 1e30 invalid *)
+Example C02_ex_valid_f64 :
+  map (fun p => valid_in F64 (fst p) (snd p))
+      [(180, 90); (-180, -90); (0x1.6800000000001p+7, 0); (0, 0x1.6800000000001p+6); (PrimFloat.nan, 0); (0, PrimFloat.nan);
+       (infinity, 0); (0, neg_infinity); (0x1.93e5939a08ceap+99, 0); (-0x1.69p+7, 0)]%float
+  = [true; true; false; false; false; false; false; false; false; false].
+Proof. vm_compute. reflexivity. Qed.
